@@ -62,6 +62,13 @@ impl Rect {
         Rect { r1: (self.r1 as i64 + dr as i64) as u32, r2: (self.r2 as i64 + dr as i64) as u32, c1: (self.c1 as i64 + dc as i64) as u32, c2: (self.c2 as i64 + dc as i64) as u32 }
     }
     pub fn a1(&self) -> String {
+        // an axis whose both ends are 0 is ABSENT: whole columns (C:D) / whole rows (3:4)
+        if self.r1 == 0 && self.r2 == 0 && self.c1 != 0 {
+            return format!("{}:{}", col_letters(self.c1), col_letters(self.c2));
+        }
+        if self.c1 == 0 && self.c2 == 0 && self.r1 != 0 {
+            return format!("{}:{}", self.r1, self.r2);
+        }
         let s = format!("{}{}", col_letters(self.c1), self.r1);
         if self.r1 == self.r2 && self.c1 == self.c2 {
             s
